@@ -9,11 +9,11 @@ PROPS = ["C15_RunsBeforeExpiring", "C15_FirstStateFirst", "C15_SuccessorStartsAt
          "C15_ReadsDashboardAtEnable"]
 
 
-def mc_cfg(shapes, *, dev="{}", maxtm=7, periods=2, level=9, inv=INV, props=PROPS):
+def mc_cfg(shapes, *, dev="{}", maxtm=7, periods=2, level=9, inv=INV, props=PROPS, assign="FALSE"):
     names = "{" + ", ".join('"%s"' % s for s in shapes) + "}"
     lines = ["SPECIFICATION MCSpec", "CONSTANTS", "  Dev = %s" % dev, "  ShapeNames = %s" % names,
              "  Steps = {1, 2, 5}", "  DurChoices = {1}", "  MaxTm = %d" % maxtm, "  MaxPeriods = %d" % periods,
-             "  MaxLevel = %d" % level, "CONSTRAINT Bound"]
+             "  MaxLevel = %d" % level, "  Assign = %s" % assign, "CONSTRAINT Bound"]
     lines += ["INVARIANT %s" % i for i in inv] + ["PROPERTY %s" % p for p in props] + ["CHECK_DEADLOCK FALSE"]
     return "\n".join(lines) + "\n"
 
@@ -37,8 +37,10 @@ class SA(generic.Desc):
 
     def mc_runs(self, prop, tier):
         if tier == "quick":
-            return [("T1-T4", mc_cfg(["T1", "T2", "T3", "T4"], level=8, maxtm=7), 12, "8g")]
-        return [("T1-T4", mc_cfg(["T1", "T2", "T3", "T4"], level=12, maxtm=9, periods=3), 16, "16g")]
+            return [("T1-T4", mc_cfg(["T1", "T2", "T3", "T4"], level=8, maxtm=7), 12, "8g"),
+                    ("T1-T4 with in-state assignments", mc_cfg(["T1", "T2", "T3", "T4"], level=7, maxtm=6, assign="TRUE"), 12, "8g")]
+        return [("T1-T4", mc_cfg(["T1", "T2", "T3", "T4"], level=12, maxtm=9, periods=3), 16, "16g"),
+                ("T1-T4 with in-state assignments", mc_cfg(["T1", "T2", "T3", "T4"], level=9, maxtm=8, assign="TRUE"), 16, "16g")]
 
     def teeth(self, prop):
         return [("no_ran_guard", mc_cfg(["T2"], dev='{"no_ran_guard"}', level=11, maxtm=9),
@@ -50,7 +52,7 @@ class SA(generic.Desc):
 
     def sim_run(self, prop, tier, sd):
         depth = 40 if tier == "quick" else 80
-        cfg = "\n".join(["SPECIFICATION SimSpec", "CONSTANTS", "  Dev = {}", '  ShapeNames = {"T1", "T2", "T3", "T4"}',
+        cfg = "\n".join(["SPECIFICATION SimSpec", "CONSTANTS", "  Dev = {}", '  ShapeNames = {"T1", "T2", "T3", "T4"}', '  Assign = TRUE',
                          "  Steps = {1, 2, 5}", "  DurChoices = {1, 4}", "  MaxTm = 100000", "  MaxPeriods = 100",
                          "  MaxLevel = 100000", "  SimDepth = %d" % depth, "CONSTRAINT Emit", "CONSTRAINT SimStop",
                          "CHECK_DEADLOCK FALSE"]) + "\n"
